@@ -13,6 +13,12 @@ CLAIMS = {
    text='Both inelastic kernels: energy conservation (result = Ei-Ef in the unit of the supplied energy for a neutron arriving at L1/v(Ei)+L2/v(Ef)), NaN iff tof <= flight time of the fixed leg, no division by zero on the selected branch, unit, dtype, frame -- discharged by z3 NRA for all inputs, unit scales and the 16 dtype cases; the comparison at the boundary is proved bit-precisely in z3 FP for Float32/Float64.',
    note='Trusted: scipp model, SMT solvers; floats are reals in the NRA clauses; overflow/underflow excluded by the stated ranges.'),
 }
+CLAIMS['C03'] = dict(cat='proof', ref='DESIGN.md 5/C03',
+   text='Beam/length kernels proved equal to their Euclidean definitions; two_theta executed symbolically from the working tree and proved (i) to be 2*atan2(|u-v|,|u+v|) on normalised beams, (ii) to lie in [0,pi] and satisfy cos(theta)|b1||b2| = b1.b2 for all non-zero beams and all unit scales, (iii) frame-clean; symmetry, scale, rotation and translation invariance are lemmas over that contract; graph tables enumerated. The 1e-15 rad accuracy clause rests on the recognised Kahan form plus a bounded mpmath comparison on near-degenerate directions (labelled bounded).',
+   note='Trusted: scipp model, instantiated atan2/cos facts (textbook), one inference rule for certificate identities, SMT solvers. Accuracy clause: bounded stand-in (1500/20000 directions), not proved. Floats are reals in the geometric clauses.')
+CLAIMS['C04'] = dict(cat='proof', ref='DESIGN.md 5/C04',
+   text='Modular contracts on _drop_due_to_gravity, beam_aligned_unit_vectors, both angle implementations, the dispatcher and the reflectometry variant: callers are verified against callee contracts (stubs). Proved for all orientations, unit scales, f32/f64 wavelength: the vector handed to two_theta is b1 and b2+delta*e_y, phi = atan2(b2\'.e_y, b2.e_x); on the optimised path, under g.b1=0, the result is the angle between b1 and the raised beam (range + cosine definition via lemmas); dispatch guard; refusal of non-orthogonal beams; limit and ordering lemmas; frame for all alias cases.',
+   note='Trusted: scipp model, atan2/cos facts, instantiation rule for the Gram identity, SMT solvers; contract preconditions (beam not parallel to gravity, raised beam non-zero); continuity inside the 1e-10 band and binned wavelength are assumptions.')
 NA = {}
 checks = []
 for p in props:
